@@ -258,6 +258,10 @@ namespace bloch::runtime {
         // Class runtime metadata and heap tracking
         std::unordered_map<std::string, std::shared_ptr<RuntimeClass>> m_classTable;
         std::vector<std::weak_ptr<Object>> m_heap;
+        // nested object deleters (see the deleter in eval(NewExpression))
+        static constexpr int kMaxDeleterDepth = 128;
+        int m_deleterDepth = 0;
+        std::vector<std::shared_ptr<Object>> m_parkedDying;
         // Values that only a C++ temporary holds while evaluation is in progress (argument
         // lists being built, the object under construction). They are collector roots.
         // A runtime error raised by a user destructor cannot propagate out of the shared_ptr
